@@ -24,13 +24,22 @@ type c12Case struct {
 	Name      string `json:"name"`
 	Email     string `json:"email"`
 	Message   string `json:"message"`
+	// where the identity is configured: bit 0 = name global, bit 1 = e-mail global
+	Scope int `json:"scope"`
 }
 
 func runC12(c *c12Case) error {
 	b := sbx.New()
 	defer b.Close()
 	b.TZMin = c.OffsetMin
-	for _, a := range [][]string{{"init"}, {"config", "user.name", c.Name}, {"config", "user.email", c.Email}} {
+	nameCmd, mailCmd := []string{"config", "user.name", c.Name}, []string{"config", "user.email", c.Email}
+	if c.Scope&1 != 0 {
+		nameCmd = []string{"config", "--global", "user.name", c.Name}
+	}
+	if c.Scope&2 != 0 {
+		mailCmd = []string{"config", "--global", "user.email", c.Email}
+	}
+	for _, a := range [][]string{{"init"}, nameCmd, mailCmd} {
 		if r := b.Run(a...); !r.OK() {
 			return fmt.Errorf("harness: %s", r)
 		}
@@ -132,7 +141,7 @@ func TestC12CLI(t *testing.T) {
 		} else {
 			off = offsets[rapid.IntRange(0, len(offsets)-1).Draw(rt, "offset")]
 		}
-		c := &c12Case{OffsetMin: off, Name: g.UserName(), Email: g.Email(), Message: g.Message(true)}
+		c := &c12Case{OffsetMin: off, Name: g.UserName(), Email: g.Email(), Message: g.Message(true), Scope: g.Int(0, 3, "identityScope")}
 		stats.Eval()
 		stats.LabelIf(off < 0, "offset:negative")
 		stats.LabelIf(off%60 != 0, "offset:fractional-hour")
